@@ -3,4 +3,278 @@ import Pff.Model.Entry
 namespace Pff.Entry.B
 open Pff.Entry Pff.Ecc Pff.Layout
 
+
+theorem marker_length : marker.length = 10 := rfl
+theorem delim_length : delim.length = 5 := rfl
+theorem markerOfKind_one : markerOfKind 1 = some marker := rfl
+theorem markerOfKind_two : markerOfKind 2 = some delim := rfl
+
+theorem markerOfKind_some {k : Nat} {m : Bytes} (h : markerOfKind k = some m) :
+    (k = 1 ∧ m = marker) ∨ (k = 2 ∧ m = delim) := by
+  unfold markerOfKind at h
+  split at h
+  · left; exact ⟨‹_›, (Option.some.inj h).symm⟩
+  · split at h
+    · right; exact ⟨‹_›, (Option.some.inj h).symm⟩
+    · cases h
+
+/-- the step function of `recoverIdx` -/
+def step (O : Ops) (kIdx : Nat) : Option Bytes → Bytes → Option Bytes :=
+  fun acc block => match acc with
+    | none => none
+    | some f => match decodeRecord O kIdx block with
+      | none => some f
+      | some r => applyRecord f r
+
+theorem recoverIdx_eq (O : Ops) (nIdx kIdx : Nat) (idx file : Bytes) :
+    recoverIdx O nIdx kIdx idx file = (chunks nIdx idx.length idx).foldl (step O kIdx) (some file) := rfl
+
+theorem foldl_step_none (O : Ops) (kIdx : Nat) (bs : List Bytes) :
+    bs.foldl (step O kIdx) none = none := by
+  induction bs with
+  | nil => rfl
+  | cons b bs ih => simpa [List.foldl_cons, step] using ih
+
+theorem foldl_bind_none (rs : List Bytes) :
+    rs.foldl (fun acc r => acc.bind (fun f => applyRecord f r)) (none : Option Bytes) = none := by
+  induction rs with
+  | nil => rfl
+  | cons b bs ih => simpa [List.foldl_cons] using ih
+
+theorem foldl_step_eq (O : Ops) (kIdx : Nat) (bs : List Bytes) (acc : Option Bytes) :
+    bs.foldl (step O kIdx) acc =
+      (bs.filterMap (decodeRecord O kIdx)).foldl
+        (fun acc r => acc.bind (fun f => applyRecord f r)) acc := by
+  induction bs generalizing acc with
+  | nil => rfl
+  | cons b bs ih =>
+    cases acc with
+    | none =>
+      rw [List.foldl_cons]
+      have : step O kIdx none b = none := rfl
+      rw [this, foldl_step_none, foldl_bind_none]
+    | some f =>
+      rw [List.foldl_cons, ih]
+      cases h : decodeRecord O kIdx b with
+      | none => simp [step, h]
+      | some r => simp [step, h]
+
+theorem unusable (O : Ops) (kIdx : Nat) (block : Bytes)
+    (hchk : O.chk kIdx (block.take kIdx) (block.drop kIdx) = false)
+    (hdec : O.dec kIdx (block.take kIdx) (block.drop kIdx) = none ∨
+            ∃ m e, O.dec kIdx (block.take kIdx) (block.drop kIdx) = some (m, e) ∧ O.chk kIdx m e = false) :
+    decodeRecord O kIdx block = none := by
+  unfold decodeRecord
+  rcases hdec with h | ⟨m, e, h, hc⟩
+  · simp [hchk, h]
+  · simp [hchk, h, hc]
+
+theorem beNat_be8 (pos : Nat) (h : pos < 256 ^ 8) :
+    beNat ((List.range 8).map (fun i => (pos / 256 ^ (7 - i)) % 256)) = pos := by
+  have hr : List.range 8 = [0, 1, 2, 3, 4, 5, 6, 7] := by decide
+  rw [hr]
+  simp only [List.map, beNat, List.foldl]
+  simp at h ⊢
+  omega
+
+
+theorem filterMap_of_map_eq {α β γ : Type} (f : α → Option β) (g : γ → β) :
+    ∀ (l : List α) (l' : List γ), l.map f = l'.map (fun x => some (g x)) →
+      l.filterMap f = l'.map g := by
+  intro l
+  induction l with
+  | nil =>
+    intro l' h
+    cases l' with
+    | nil => rfl
+    | cons _ _ => cases h
+  | cons a l ih =>
+    intro l' h
+    cases l' with
+    | nil => cases h
+    | cons c l' =>
+      rw [List.map_cons, List.map_cons] at h
+      injection h with h1 h2
+      rw [List.filterMap_cons, h1, List.map_cons, ih l' h2]
+
+theorem take_drop_mid (a m b : Bytes) (n : Nat) (h : n = a.length) :
+    ((a ++ m ++ b).drop n).take m.length = m := by
+  subst h
+  rw [List.append_assoc, List.drop_left, List.take_left]
+
+def GoodRec (file : Bytes) (ko : Nat × Nat) : Prop :=
+  ∃ m, markerOfKind ko.1 = some m ∧ (file.drop ko.2).take m.length = m
+
+theorem genEcc_cons (pre : Bytes) (p : EntryParts) (ps : List EntryParts) :
+    genEcc pre (p :: ps) = genEcc (pre ++ genEntry p) ps := by
+  simp [genEcc, List.append_assoc]
+
+theorem genIdx_cons (pre : Bytes) (p : EntryParts) (ps : List EntryParts) :
+    genIdx pre.length (p :: ps) =
+      (markerOffsets p).map (fun ko => (ko.1, pre.length + ko.2)) ++
+        genIdx (pre ++ genEntry p).length ps := by
+  rw [List.length_append]; rfl
+
+theorem head_good (pre : Bytes) (p : EntryParts) (rest : Bytes) :
+    ∀ ko ∈ markerOffsets p, GoodRec (pre ++ genEntry p ++ rest) (ko.1, pre.length + ko.2) := by
+  intro ko hko
+  simp only [markerOffsets, List.mem_cons, List.not_mem_nil, or_false] at hko
+  rcases hko with rfl | rfl | rfl | rfl | rfl
+  · refine ⟨marker, rfl, ?_⟩
+    have : pre ++ genEntry p ++ rest =
+        pre ++ marker ++ (p.path ++ delim ++ p.sizeTxt ++ delim ++ p.pathEcc ++ delim ++ p.sizeEcc ++ delim ++ p.track ++ rest) := by
+      simp [genEntry, List.append_assoc]
+    rw [this]
+    exact take_drop_mid _ _ _ _ (by simp)
+  · refine ⟨delim, rfl, ?_⟩
+    have : pre ++ genEntry p ++ rest =
+        (pre ++ marker ++ p.path) ++ delim ++ (p.sizeTxt ++ delim ++ p.pathEcc ++ delim ++ p.sizeEcc ++ delim ++ p.track ++ rest) := by
+      simp [genEntry, List.append_assoc]
+    rw [this]
+    exact take_drop_mid _ _ _ _ (by simp only [List.length_append]; omega)
+  · refine ⟨delim, rfl, ?_⟩
+    have : pre ++ genEntry p ++ rest =
+        (pre ++ marker ++ p.path ++ delim ++ p.sizeTxt) ++ delim ++ (p.pathEcc ++ delim ++ p.sizeEcc ++ delim ++ p.track ++ rest) := by
+      simp [genEntry, List.append_assoc]
+    rw [this]
+    exact take_drop_mid _ _ _ _ (by simp only [List.length_append]; omega)
+  · refine ⟨delim, rfl, ?_⟩
+    have : pre ++ genEntry p ++ rest =
+        (pre ++ marker ++ p.path ++ delim ++ p.sizeTxt ++ delim ++ p.pathEcc) ++ delim ++ (p.sizeEcc ++ delim ++ p.track ++ rest) := by
+      simp [genEntry, List.append_assoc]
+    rw [this]
+    exact take_drop_mid _ _ _ _ (by simp only [List.length_append]; omega)
+  · refine ⟨delim, rfl, ?_⟩
+    have : pre ++ genEntry p ++ rest =
+        (pre ++ marker ++ p.path ++ delim ++ p.sizeTxt ++ delim ++ p.pathEcc ++ delim ++ p.sizeEcc) ++ delim ++ (p.track ++ rest) := by
+      simp [genEntry, List.append_assoc]
+    rw [this]
+    exact take_drop_mid _ _ _ _ (by simp only [List.length_append]; omega)
+
+theorem offsets (pre : Bytes) (es : List EntryParts) :
+    (genIdx pre.length es).length = 5 * es.length ∧
+    ∀ ko ∈ genIdx pre.length es, GoodRec (genEcc pre es) ko := by
+  induction es generalizing pre with
+  | nil => exact ⟨rfl, fun ko h => by cases h⟩
+  | cons p ps ih =>
+    obtain ⟨ihl, ihg⟩ := ih (pre ++ genEntry p)
+    rw [genIdx_cons, genEcc_cons]
+    constructor
+    · rw [List.length_append, ihl, List.length_map]
+      simp [markerOffsets]; omega
+    · intro ko hko
+      rcases List.mem_append.1 hko with h | h
+      · obtain ⟨ko', hk', rfl⟩ := List.mem_map.1 h
+        have := head_good pre p ((ps.map genEntry).flatten) ko' hk'
+        simpa [genEcc] using this
+      · exact ihg ko h
+
+theorem markerOfKind_pos {k : Nat} {m : Bytes} (h : markerOfKind k = some m) : 0 < m.length := by
+  rcases markerOfKind_some h with ⟨_, rfl⟩ | ⟨_, rfl⟩
+  · rw [marker_length]; omega
+  · rw [delim_length]; omega
+
+theorem span_le {file m : Bytes} {pos : Nat} (hm : 0 < m.length)
+    (h : (file.drop pos).take m.length = m) : pos + m.length ≤ file.length := by
+  have := congrArg List.length h
+  rw [List.length_take, List.length_drop] at this
+  omega
+
+theorem getElem?_span {l m : Bytes} {pos : Nat} (h : (l.drop pos).take m.length = m)
+    {j : Nat} (h1 : pos ≤ j) (h2 : j < pos + m.length) : l[j]? = m[j - pos]? := by
+  have : m[j - pos]? = ((l.drop pos).take m.length)[j - pos]? := by rw [h]
+  rw [this, List.getElem?_take, if_pos (by omega), List.getElem?_drop]
+  congr 1; omega
+
+theorem applyRecord_rec (g : Bytes) (kind pos : Nat) (m : Bytes)
+    (hm : markerOfKind kind = some m) (hpos : pos < 256 ^ 8) (hin : pos + m.length ≤ g.length) :
+    applyRecord g ((48 + kind) :: (List.range 8).map (fun i => (pos / 256 ^ (7 - i)) % 256)) =
+      some (if (g.drop pos).take m.length = m then g else writeAt g pos m) := by
+  have hk : kind = 1 ∨ kind = 2 := by
+    rcases markerOfKind_some hm with ⟨h, _⟩ | ⟨h, _⟩ <;> simp [h]
+  have hd : isDigit (48 + kind) = true := by
+    rcases hk with rfl | rfl <;> decide
+  have hk' : 48 + kind - 48 = kind := by omega
+  simp only [applyRecord, hd, beNat_be8 pos hpos, hk', Bool.not_true, Bool.false_eq_true, if_false,
+    hm]
+  rw [if_neg (by omega)]
+  split <;> rfl
+
+theorem writeAt_length (g m : Bytes) (pos : Nat) (h : pos + m.length ≤ g.length) :
+    (writeAt g pos m).length = g.length := by
+  unfold writeAt
+  rw [if_pos (by omega)]
+  simp only [List.length_append, List.length_take, List.length_drop]
+  omega
+
+theorem writeAt_getElem?_in (g m : Bytes) (pos j : Nat) (h : pos + m.length ≤ g.length)
+    (h1 : pos ≤ j) (h2 : j < pos + m.length) : (writeAt g pos m)[j]? = m[j - pos]? := by
+  unfold writeAt
+  rw [if_pos (by omega)]
+  have hl : (g.take pos).length = pos := by rw [List.length_take]; omega
+  rw [List.append_assoc, List.getElem?_append_right (by omega), hl,
+    List.getElem?_append_left (by omega)]
+
+theorem writeAt_getElem?_out (g m : Bytes) (pos j : Nat) (h : pos + m.length ≤ g.length)
+    (h1 : ¬ (pos ≤ j ∧ j < pos + m.length)) : (writeAt g pos m)[j]? = g[j]? := by
+  unfold writeAt
+  rw [if_pos (by omega)]
+  have hl : (g.take pos).length = pos := by rw [List.length_take]; omega
+  by_cases hj : j < pos
+  · rw [List.append_assoc, List.getElem?_append_left (by omega), List.getElem?_take, if_pos hj]
+  · rw [List.getElem?_append_right (by simp only [List.length_append]; omega),
+      List.getElem?_drop]
+    congr 1
+    simp only [List.length_append]; omega
+
+theorem fold_recover (file : Bytes) (hsmall : file.length < 256 ^ 8) :
+    ∀ (recs : List (Nat × Nat)) (g : Bytes),
+      (∀ ko ∈ recs, GoodRec file ko) →
+      g.length = file.length →
+      (∀ j, j < file.length →
+        (∀ ko ∈ recs, ∀ m, markerOfKind ko.1 = some m → ¬ (ko.2 ≤ j ∧ j < ko.2 + m.length)) →
+        g[j]? = file[j]?) →
+      (recs.map (fun ko => (48 + ko.1) ::
+          (List.range 8).map (fun i => (ko.2 / 256 ^ (7 - i)) % 256))).foldl
+        (fun acc r => acc.bind (fun f => applyRecord f r)) (some g) = some file := by
+  intro recs
+  induction recs with
+  | nil =>
+    intro g _ hlen hag
+    simp only [List.map_nil, List.foldl_nil]
+    congr 1
+    apply List.ext_getElem?
+    intro j
+    by_cases hj : j < file.length
+    · exact hag j hj (fun ko h => by cases h)
+    · rw [List.getElem?_eq_none (by omega), List.getElem?_eq_none (by omega)]
+  | cons ko recs ih =>
+    intro g hgood hlen hag
+    obtain ⟨m, hm, hspan⟩ := hgood ko (List.mem_cons_self ..)
+    have hmpos := markerOfKind_pos hm
+    have hle := span_le hmpos hspan
+    rw [List.map_cons, List.foldl_cons, Option.bind_some,
+      applyRecord_rec g ko.1 ko.2 m hm (by omega) (by omega)]
+    apply ih
+    · exact fun ko' h => hgood ko' (List.mem_cons_of_mem _ h)
+    · split
+      · exact hlen
+      · rw [writeAt_length _ _ _ (by omega), hlen]
+    · intro j hj hout
+      by_cases hin : ko.2 ≤ j ∧ j < ko.2 + m.length
+      · rw [getElem?_span hspan hin.1 hin.2]
+        split
+        · next heq => exact getElem?_span heq hin.1 hin.2
+        · exact writeAt_getElem?_in _ _ _ _ (by omega) hin.1 hin.2
+      · have hg : g[j]? = file[j]? := by
+          apply hag j hj
+          intro ko' hmem m' hm'
+          rcases List.mem_cons.1 hmem with rfl | hmem
+          · rw [hm] at hm'; cases hm'; exact hin
+          · exact hout ko' hmem m' hm'
+        rw [← hg]
+        split
+        · rfl
+        · exact writeAt_getElem?_out _ _ _ _ (by omega) hin
+
 end Pff.Entry.B
